@@ -2,9 +2,11 @@ mod common;
 mod corpus;
 mod exp;
 mod h_c01;
+mod h_cards;
 mod h_content;
 mod h_readonly;
 mod h_run;
+mod h_ticket;
 mod h_timeline;
 mod hist;
 mod p_adaptive;
@@ -65,8 +67,10 @@ fn main() {
         "C18" => h_readonly::run(tier, replay),
         "C19" => h_c01::run_c19(tier, replay),
         "C24" => h_c01::run_c24(tier, replay),
+        "C25" => h_ticket::run(tier, replay),
         "C26" => h_c01::run_c26(tier, replay),
         "C42" => h_c01::run_c42(tier, replay),
+        "C27" => h_cards::run(tier, replay),
         "C30" => p_codec::run_c30(tier, replay),
         "C31" => p_codec::run_c31(tier, replay),
         "C32" => p_query::run(tier, replay),
@@ -87,6 +91,8 @@ fn worker(kind: &str) {
     match kind {
         "c32" => p_query::worker(),
         "hist" => hist::worker(),
+        "c27" => h_cards::worker(),
+        "c25" => h_ticket::worker(),
         "c18" => h_readonly::worker(),
         "vec" => q_vec::worker(),
         "corpus" => corpus::worker(),
